@@ -278,6 +278,9 @@ class CaseT:
 
     def copy(self, **kw):
         c = CaseT(self.id, self.kind, self.args, self.lines, self.tags)
+        for k, v in self.__dict__.items():
+            if k not in ("id", "kind", "args", "lines", "tags"):
+                setattr(c, k, v)
         for k, v in kw.items():
             setattr(c, k, v)
         return c
